@@ -208,6 +208,20 @@ def run(ctx):
     for i in range(600 if thorough else 120):
         dup = i % 4 == 0
         scen.append(dict(id="rand/%d%s" % (i, "d" if dup else ""), mode="server", cap=0, script=random_script(rng, dup)))
+    # every (work-start variant) x (signal variant) for the SAME run ID, in both orders, with the step finishing
+    # before / after the signal and before / after the end of input: two-message interactions the random grammar
+    # only reaches by luck (e.g. a rejected work-start followed by a valid signal for that run)
+    ws_kinds = [("ok", ""), ("declared_error", ""), ("panic", ""), ("err", ""), ("baddata", ""), ("ok", "unknown_step"), ("ok", "bad_input")]
+    sig_kinds = ["", "unknown_signal", "bad_data"]
+    for wi, (be, va) in enumerate(ws_kinds):
+        for sv in sig_kinds:
+            ws = dict(op="send", kind="ws", run="r2", beh=be, variant=va)
+            sg = dict(op="send", kind="sig", run="r2", variant=sv, beh="ok")
+            fin = dict(op="finish", run="r2")
+            cd = dict(op="send", kind="cd", run="", variant="", beh="ok")
+            for name, script in (("ws_sig_fin", [ws, sg, fin, cd]), ("ws_fin_sig", [ws, fin, sg, cd]), ("sig_ws_fin", [sg, ws, fin, cd]),
+                                 ("ws_sig_eof_fin", [ws, sg, dict(op="eof"), fin]), ("ws_sig_sig", [ws, sg, dict(sg), fin, cd])):
+                scen.append(dict(id="pair/%d-%s-%s" % (wi, sv or "valid", name), mode="server", cap=0, script=script))
     base = [
         [dict(op="send", kind="ws", run="r1", beh="ok", variant=""), dict(op="send", kind="sig", run="r1", variant="", beh="ok"),
          dict(op="finish", run="r1"), dict(op="send", kind="cd", run="", variant="", beh="ok")],
